@@ -29,8 +29,8 @@ import (
 	"net"
 	"os"
 	"regexp"
-	"strconv"
 	"runtime"
+	"strconv"
 	"strings"
 	"sync"
 	"testing"
@@ -74,11 +74,11 @@ type vNdObs struct {
 	Returned   bool     `json:"returned"`
 	Restricted bool     `json:"restricted"`
 	Err        string   `json:"err"`
-	Stage      string   `json:"stage"`    // none connect roundtrip1 xor1 notsupported resolveother roundtrip2 xor2 unknown
-	Cause      string   `json:"cause"`    // none timeout chan attr resolve other
+	Stage      string   `json:"stage"`        // none connect roundtrip1 xor1 notsupported resolveother roundtrip2 xor2 unknown
+	Cause      string   `json:"cause"`        // none timeout chan attr resolve other
 	IsTimedOut bool     `json:"is_timed_out"` // errors.Is(err, ErrTimedOut)
-	MS         int64    `json:"ms"`      // from the call to its return
-	HeldMS     int64    `json:"held_ms"` // of which the answer to its first request was held back at the barrier (the round trip's timer runs meanwhile)
+	MS         int64    `json:"ms"`           // from the call to its return
+	HeldMS     int64    `json:"held_ms"`      // of which the answer to its first request was held back at the barrier (the round trip's timer runs meanwhile)
 	Reqs       []vNdReq `json:"reqs"`
 	ClientPort int      `json:"client_port"`
 	SockInode  string   `json:"sock_inode"`    // inode of the client's UDP socket (looked up when its first request arrived)
@@ -97,11 +97,11 @@ const vNdTickMS = 1000
 // served the round trip).  So no socket is created while answers can be in flight: every responder holds its
 // first answer until every case of the run has sent its first request (all sockets exist then).
 type vNdBarrier struct {
-	mu      sync.Mutex
-	want    int
-	have    int
-	open    chan struct{}
-	opened  bool
+	mu     sync.Mutex
+	want   int
+	have   int
+	open   chan struct{}
+	opened bool
 }
 
 func vNdNewBarrier(n int) *vNdBarrier {
@@ -132,7 +132,6 @@ func (b *vNdBarrier) arrive() {
 		b.mu.Unlock()
 	}
 }
-
 
 // shared snapshots (a goroutine dump stops the world; /proc/net/udp is long): one parsed snapshot is reused
 // by every case that asks for one taken at or after the instant it names
@@ -215,22 +214,22 @@ var vNdProcUDP = &vNdUDPSnap{}
 // scripted STUN responder
 
 type vNdServer struct {
-	c        *vNdCase
-	primary  *net.UDPConn
-	alt      *net.UDPConn
-	mu       sync.Mutex
-	reqs     []vNdReq
-	first    *net.UDPAddr // true source of the first request
-	firstTx  [stun.TransactionIDSize]byte
-	t0       time.Time
-	wg       sync.WaitGroup
-	altIP    net.IP
-	closed   chan struct{}
-	stray    int
-	heldMS   int64
-	inode    string
-	sendMu   sync.Mutex // one reply (all its copies) at a time, in the order of the requests
-	gate     *vNdBarrier
+	c       *vNdCase
+	primary *net.UDPConn
+	alt     *net.UDPConn
+	mu      sync.Mutex
+	reqs    []vNdReq
+	first   *net.UDPAddr // true source of the first request
+	firstTx [stun.TransactionIDSize]byte
+	t0      time.Time
+	wg      sync.WaitGroup
+	altIP   net.IP
+	closed  chan struct{}
+	stray   int
+	heldMS  int64
+	inode   string
+	sendMu  sync.Mutex // one reply (all its copies) at a time, in the order of the requests
+	gate    *vNdBarrier
 }
 
 func vNdAltIP() net.IP {
